@@ -34,12 +34,12 @@ declaration_specifiers: nontype_spec* type_core nontype_spec*
 nontype_spec          : storage | type_qualifier | function_spec | alignment_spec
 storage               : TYPEDEF | EXTERN | STATIC | AUTO | REGISTER | _THREAD_LOCAL
 function_spec         : INLINE | _NORETURN
-type_qualifier        : CONST | RESTRICT | VOLATILE | _ATOMIC
+type_qualifier        : CONST | RESTRICT | VOLATILE | _ATOMIC_Q
 type_core             : builtin_seq | TYPEID | struct_or_union_specifier | enum_specifier | _ATOMIC LPAREN type_name RPAREN
 builtin_seq           : VOID | CHAR | SIGNED CHAR | UNSIGNED CHAR | SHORT | SHORT INT | UNSIGNED SHORT | INT | SIGNED | UNSIGNED
                       | UNSIGNED INT | LONG | LONG INT | UNSIGNED LONG | LONG LONG | LONG LONG INT | UNSIGNED LONG LONG INT
                       | FLOAT | DOUBLE | LONG DOUBLE | _BOOL | FLOAT _COMPLEX | DOUBLE _COMPLEX | LONG DOUBLE _COMPLEX
-                      | __INT128 | UNSIGNED __INT128 | LONG type_qualifier INT | INT UNSIGNED | LONG STATIC INT
+                      | __INT128 | UNSIGNED __INT128 | LONG type_qualifier INT | INT UNSIGNED
 alignment_spec        : _ALIGNAS LPAREN ( type_name | constant_expression ) RPAREN
 init_declarator_list  : init_declarator ( COMMA init_declarator )*
 init_declarator       : declarator ( EQUALS initializer )?
@@ -127,6 +127,20 @@ IDX                   : ID | TYPEID
 #  * 6.7.2p2: at most one TYPEID in a specifier list and no TYPEID after another type specifier (otherwise `T x;` is ambiguous)
 #  * a declaration without declarator must declare a tag (or be a static assertion)
 #  * storage-class `typedef` with a function body is not a function definition
+
+
+def finish(sent):
+    """Resolve reference-only pseudo terminals; None when the sentence is not valid C.
+    _ATOMIC_Q is `_Atomic` used as a type qualifier: C11 6.7.2.4p4 - followed by '(' it is always a type specifier."""
+    out = []
+    for i, t in enumerate(sent):
+        if t == "_ATOMIC_Q":
+            if i + 1 < len(sent) and sent[i + 1] == "LPAREN":
+                return None
+            out.append("_ATOMIC")
+        else:
+            out.append(t)
+    return tuple(out)
 
 
 class Ref:
@@ -370,6 +384,19 @@ class Ref:
                 out.append(("+2'" + lab, w + base))
             return out
         raise AnalysisError("bad node")
+
+    def deep_variants(self, name, limit=3):
+        """Variants of nonterminal `name`; a variant that is a single nonterminal is replaced by that nonterminal's own
+        variants (unit chains are followed `limit` levels), so that e.g. declaration_specifiers offers every type core."""
+        out = []
+        for ai, alt in enumerate(self.rules[name]):
+            for lab, w in self.variants(alt):
+                if limit > 0 and len(w) == 1 and isinstance(w[0], tuple):
+                    for lab2, w2 in self.deep_variants(w[0][1], limit - 1):
+                        out.append((f"{name}/{ai}/{lab}>{lab2}", w2))
+                else:
+                    out.append((f"{name}/{ai}/{lab}", w))
+        return out
 
     def _shallow_min(self, n):
         """Minimal word with nonterminals kept as placeholders (so that contexts stay recognisable)."""
